@@ -22,6 +22,10 @@ def parseOp (C : Nat) : List String → Option (Op × List String)
   | "itermut" :: v :: rest => some (.iterMutSet (parseNat! v), rest)
   | "itermutrev" :: v :: rest => some (.iterMutRevSet (parseNat! v), rest)
   | "clone" :: rest => some (.clone, rest)
+  -- `reserve(n)`: more capacity, the same table — the identity, like `clone`
+  | "reserve" :: _n :: rest => some (.clone, rest)
+  -- a cell written through `ravel_mut()[i * stride + j]`: the same cell as `m[(i, j)]`
+  | "ravelset" :: i :: j :: v :: rest => some (.setCell (parseNat! i) (parseNat! j) (parseNat! v), rest)
   | "clonefrom" :: r :: v :: rest => some (.cloneFrom (parseNat! r) (parseNat! v), rest)
   | "row" :: i :: n :: rest =>
     let (vals, rest') := takeNats rest (parseNat! n)
